@@ -19,7 +19,7 @@ verus! {
         r is Ok ==> fits16(old(fat).bytes(), cluster as int) && r->Ok_0 == ent16(old(fat).bytes(), cluster as int),
 //@endextract
 
-// @obl props=C08,C09,C13 tier=quick fns=Fat16::get
+// @obl props=C03,C08,C09,C13 tier=quick fns=Fat16::get
 // @desc FAT16 get(k): Ok(v) => v = class16(entry k): 0 free, FFF7 bad, FFF8..FFFF (every legal marker) end of chain, else next cluster; table unchanged
 //@extract file=src/table.rs scope="impl FatTrait for Fat16" fn=get as=fat16_get self_prefix=fat16_
 //@generics <S: Stream<E>, E>
